@@ -64,13 +64,21 @@ impl std::error::Error for Error {}
 /// assert_eq!(signature.unwrap().len(), 136);
 /// ```
 pub fn strip_pgp_signature(input: &str) -> Result<(String, Option<String>), Error> {
-    let mut lines = input.lines();
+    // Like `str::lines`, but a carriage return in front of the line feed stays
+    // part of the line: the payload is returned exactly as it was signed.
+    // Markers and the blank separator are still recognised with a trailing CR.
+    fn trim_cr(line: &str) -> &str {
+        line.strip_suffix('\r').unwrap_or(line)
+    }
+    let mut lines = input
+        .split_inclusive('\n')
+        .map(|l| l.strip_suffix('\n').unwrap_or(l));
     let first_line = if let Some(line) = lines.next() {
         line
     } else {
         return Ok((input.to_string(), None));
     };
-    if first_line != "-----BEGIN PGP SIGNED MESSAGE-----" {
+    if trim_cr(first_line) != "-----BEGIN PGP SIGNED MESSAGE-----" {
         return Ok((input.to_string(), None));
     }
 
@@ -82,6 +90,7 @@ pub fn strip_pgp_signature(input: &str) -> Result<(String, Option<String>), Erro
         } else {
             return Err(Error::MissingPayload);
         };
+        let line = trim_cr(line);
         if line.is_empty() {
             break;
         }
@@ -96,7 +105,7 @@ pub fn strip_pgp_signature(input: &str) -> Result<(String, Option<String>), Erro
         } else {
             return Err(Error::MissingPgpSignature);
         };
-        if line == "-----BEGIN PGP SIGNATURE-----" {
+        if trim_cr(line) == "-----BEGIN PGP SIGNATURE-----" {
             break;
         }
         payload.push_str(line);
@@ -110,6 +119,7 @@ pub fn strip_pgp_signature(input: &str) -> Result<(String, Option<String>), Erro
         } else {
             return Err(Error::TruncatedPgpSignature);
         };
+        let line = trim_cr(line);
         if line == "-----END PGP SIGNATURE-----" {
             break;
         }
